@@ -158,6 +158,8 @@ def run(ctx):
     inputs = [x for x in gen.graph_inputs(ctx["tier"], ctx["seed"]) if len(x[1]) <= 14]
     if ctx["tier"] == "quick":
         inputs = inputs[::3]
+    # wide value tables (9-14 rows): loops with many exits
+    inputs += [("G0-wide-tables", s) for s in gen.wide_graphs()]
     # graphs as the YAML/dict front end delivers them: with declared back edges, endless loops and
     # latches whose only successor is a back edge included (random digraphs, not only closed CFGs)
     import random
